@@ -373,6 +373,74 @@ def ob_kwargs(op):
     return h
 
 
+def ob_kwargs_expr(op):
+    """kwargs set / delete on a TARGET or a DEPENDENCY whose keyword is currently written as something other than a plain literal - a variable, an f-string,
+    a concatenation, a method call - or is absent: afterwards the keyword EVALUATES to exactly the requested text (the requested text may spell the variable's
+    name or the f-string's template: that is not the value), every other argument and statement is as before"""
+    def h():
+        import types
+        fn = ['target', 'dependency'][choose(2, 'function')]
+        key = 'install_dir' if fn == 'target' else 'not_found_message'
+        env = {'d': 'x/y'}
+        shape = choose(7, 'current value')
+        lit = sym_str(1, 'lit', alphabet='da@')
+        cur = [None, "'" + lit + "'", 'd', "f'@d@'", "d + 'a'", "'d'.to_upper()", "'@d@'"][shape]
+        call = ("executable('e', 'main.c'" if fn == 'target' else "dependency('z'") + ((', %s : ' % key) + cur if cur is not None else '') + ", native : false)"
+        text = "project('p', 'c')\nd = 'x/y'\nt = " + call + "\nx = 1\n"
+        store = {'meson.build': text}
+        ast = mp.Parser(text, 'meson.build').parse()
+        node = ast.lines[2].value
+        rw = object.__new__(R.Rewriter)
+        rw.modified_nodes = []; rw.to_remove_nodes = []; rw.to_add_nodes = []; rw.skip_errors = False; rw.info_dump = None
+        rw.interpreter = types.SimpleNamespace(project_node=ast.lines[0])
+        rw.find_target = lambda i: types.SimpleNamespace(node=node)
+        rw.find_dependency = lambda i: types.SimpleNamespace(node=node)
+        if op == 'set':
+            v = sym_str(1 + choose(3, 'vl'), 'requested', alphabet='da@')
+            kw = {key: v}
+        else:
+            v = None; kw = {key: None}
+        cmd = {'type': 'kwargs', 'function': fn, 'id': 'e' if fn == 'target' else 'z', 'operation': op, 'kwargs': kw}
+        saved = (R.__dict__.get('open'), R.os)
+        R.open = lambda path, mode='r', **k: FakeFile(store, path, mode)
+        R.os = FakeOS
+        try:
+            rw.process_kwargs(cmd)
+            rw.apply_changes()
+        finally:
+            R.os = saved[1]
+            if saved[0] is None: del R.open
+            else: R.open = saved[0]
+        got = store['meson.build']
+        try:
+            ast2 = mp.Parser(got, 'meson.build').parse()
+        except mp.ParseException:
+            check(False, 'the edited file still parses'); return
+        check(len(ast2.lines) == 4 and got.startswith("project('p', 'c')\nd = 'x/y'\nt = ") and got.endswith("\nx = 1\n"), 'every other statement is textually unchanged')
+        if len(ast2.lines) != 4: return
+        call2 = ast2.lines[2].value
+        kw2 = {k.value: unwrap(v_) for k, v_ in call2.args.kwargs.items()}
+
+        def ev(n):       # the language's meaning of the node kinds used here
+            n = unwrap(n)
+            if isinstance(n, mp.StringNode):
+                if n.is_fstring: return n.value.replace('@d@', env['d'])
+                return n.value
+            if isinstance(n, mp.IdNode): return env[n.value]
+            if isinstance(n, mp.ArithmeticNode): return ev(n.left) + ev(n.right)
+            if isinstance(n, mp.MethodNode): return ev(n.source_object).upper()
+            raise TypeError(type(n))
+        check('native' in kw2 and isinstance(kw2['native'], mp.BooleanNode) and kw2['native'].value is False and len(call2.args.arguments) == len(node.args.arguments), 'the other arguments are as before')
+        if op == 'delete':
+            check(key not in kw2, 'a deleted keyword is gone')
+        else:
+            if key not in kw2: check(False, 'the keyword has exactly the requested new value'); return
+            g = ev(kw2[key])
+            check(len(g) == len(v) and decide(bt_any(eq(g, v))), 'the keyword has exactly the requested new value')
+        cover('done')
+    return h
+
+
 def ob_default_options(op):
     """default-options set / delete through the real Rewriter.process_default_options -> process_kwargs -> MTypeStrList -> apply_changes:
     exactly the entries of the addressed option go, every other entry stays, in order; `set` appends the new value"""
@@ -669,6 +737,10 @@ def obligations(tier):
     out.append(Obligation('target-edit', ob_target_edit(), dict(shapes='%d ways foo uses the shared list x %d ways bar does' % (len(FOO_USES), len(BAR_USES)), operations='add new / add existing / rm shared / rm own',
                           files='real files in a scratch directory (pathlib resolves them): names concrete'), labels=('edited', 'refused-or-nothing-to-do'), path_timeout=300))
     for op in ('set', 'delete', 'add', 'remove'):
+        if op in ('set', 'delete'):
+            out.append(Obligation('kwargs-expr[%s]' % op, ob_kwargs_expr(op), dict(function='target | dependency', keyword='install_dir | not_found_message (MTypeStr)',
+                                  current_value="absent | literal (symbolic) | variable | f-string | concatenation | method call | '@d@'", requested='1-3 chars over {d, a, @}: may spell the variable name or the f-string template'),
+                                  labels=('done',), max_paths=2000000))
         out.append(Obligation('kwargs[%s]' % op, ob_kwargs(op), dict(function='project', kwargs='version (string), license (list of 2 symbolic strings)', value="1-2 chars over {a, b, space, quote, backslash}"),
                               labels=('done',), max_paths=3000000))
     for op in ('set', 'delete'):
